@@ -32,7 +32,9 @@ constexpr auto ceil_resid(T const x, T const xWhole) noexcept -> int
 template <typename T>
 constexpr auto ceil_int(T const x, T const xWhole) noexcept -> T
 {
-    return (xWhole + static_cast<T>(ceil_resid(x, xWhole)));
+    return ( // a negative fraction rounds up to negative zero
+        (x < T(0) && xWhole == T(0)) ? -T(0) : xWhole + static_cast<T>(ceil_resid(x, xWhole))
+    );
 }
 
 template <typename T>
@@ -44,9 +46,12 @@ constexpr auto ceil_check(T const x) noexcept -> T
             !is_finite(x) ? x
                           :
                           // signed-zero cases
-            etl::numeric_limits<T>::epsilon() > abs(x) ? x
-                                                       :
-                                                       // else
+            x == T(0) ? x
+                      :
+                      // no fractional part left; also keeps the conversion to llint_t in range
+            abs(x) >= T(1) / etl::numeric_limits<T>::epsilon() ? x
+                                                               :
+                                                               // else
             ceil_int(x, T(static_cast<llint_t>(x)))
     );
 }
